@@ -253,7 +253,7 @@ impl NISPSecrets {
 
     pub(crate) fn nisp2sec_verify_proof<CS>(
         &self,
-        commitment: &CL03Commitment,
+        commitment: &Integer,
         g1: &Integer,
         h1: &Integer,
         n1: &Integer,
@@ -267,11 +267,11 @@ impl NISPSecrets {
             * Integer::from(h1.pow_mod_ref(s2, &n1).unwrap()))
             % n1;
         let str_input =
-            g1.to_string() + &h1.to_string() + &commitment.value.to_string() + &t.to_string();
+            g1.to_string() + &h1.to_string() + &commitment.to_string() + &t.to_string();
         let hash = <CS::HashAlg as Digest>::digest(str_input);
         let challenge = Integer::from_digits(hash.as_slice(), Order::MsfBe);
 
-        let rhs = (t * Integer::from(commitment.value.pow_mod_ref(&challenge, &n1).unwrap())) % n1;
+        let rhs = (t * Integer::from(commitment.pow_mod_ref(&challenge, &n1).unwrap())) % n1;
 
         lhs == rhs
     }
@@ -418,10 +418,11 @@ pub(crate) struct NISPSignaturePoK {
     pub(crate) s_7: Integer,
     pub(crate) s_8: Integer,
     pub(crate) s_9: Integer,
-    pub(crate) Cx: CL03Commitment,
-    pub(crate) Cv: CL03Commitment,
-    pub(crate) Cw: CL03Commitment,
-    pub(crate) Ce: CL03Commitment,
+    // commitment values only: a proof must never carry the openings of its commitments
+    pub(crate) Cx: Integer,
+    pub(crate) Cv: Integer,
+    pub(crate) Cw: Integer,
+    pub(crate) Ce: Integer,
 }
 
 impl NISPSignaturePoK {
@@ -432,7 +433,7 @@ impl NISPSignaturePoK {
         a_bases: &Bases,
         messages: &[CL03Message],
         unrevealed_message_indexes: &[usize],
-    ) -> NISPSignaturePoK
+    ) -> (NISPSignaturePoK, CL03Commitment)
     where
         CS::HashAlg: Digest,
     {
@@ -561,22 +562,26 @@ impl NISPSignaturePoK {
         let s_8 = r_8 + w * signature.e.clone() * &challenge;
         let s_9 = r_9 + re * &challenge;
 
-        NISPSignaturePoK {
-            challenge,
-            s_1,
-            s_2,
-            s_3,
-            s_4,
-            s_5,
-            s_6,
-            s_7,
-            s_8,
-            s_9,
-            Cx: C_Cx.cl03Commitment().clone(),
-            Cv: C_Cv.cl03Commitment().clone(),
-            Cw: C_Cw.cl03Commitment().clone(),
-            Ce: C_Ce.cl03Commitment().clone(),
-        }
+        // the opening of Ce stays with the prover (it is needed for the range proof on e)
+        (
+            NISPSignaturePoK {
+                challenge,
+                s_1,
+                s_2,
+                s_3,
+                s_4,
+                s_5,
+                s_6,
+                s_7,
+                s_8,
+                s_9,
+                Cx: C_Cx.value().clone(),
+                Cv: C_Cv.value().clone(),
+                Cw: C_Cw.value().clone(),
+                Ce: C_Ce.value().clone(),
+            },
+            C_Ce.cl03Commitment().clone(),
+        )
     }
 
     pub(crate) fn nisp5_MultiAttr_verify_proof<CS: CLCiphersuite>(
@@ -616,7 +621,7 @@ impl NISPSignaturePoK {
         }
         t_Cx = t_Cx % N;
 
-        let input1 = (Integer::from(self.Cv.value.pow_mod_ref(&self.s_4, N).unwrap())
+        let input1 = (Integer::from(self.Cv.pow_mod_ref(&self.s_4, N).unwrap())
             * divm(&Integer::from(1), &t_Cx, N)
             * Integer::from(
                 divm(&Integer::from(1), &signer_pk.b, N)
@@ -639,12 +644,11 @@ impl NISPSignaturePoK {
             * Integer::from(commitment_pk.h.pow_mod_ref(&self.s_1, N).unwrap())
             * Integer::from(
                 self.Cw
-                    .value
                     .pow_mod_ref(&(Integer::from(-1) * &self.challenge), N)
                     .unwrap(),
             ))
             % N;
-        let input3 = (Integer::from(self.Cw.value.pow_mod_ref(&self.s_4, N).unwrap())
+        let input3 = (Integer::from(self.Cw.pow_mod_ref(&self.s_4, N).unwrap())
             * Integer::from(
                 divm(&Integer::from(1), &commitment_pk.g_bases[0], N)
                     .pow_mod_ref(&self.s_8, N)
@@ -686,7 +690,6 @@ impl NISPSignaturePoK {
             * Integer::from(commitment_pk.h.pow_mod_ref(&self.s_3, N).unwrap())
             * Integer::from(
                 self.Cx
-                    .value
                     .pow_mod_ref(&(Integer::from(-1) * &self.challenge), N)
                     .unwrap(),
             ))
@@ -696,7 +699,6 @@ impl NISPSignaturePoK {
             * Integer::from(commitment_pk.h.pow_mod_ref(&self.s_9, N).unwrap())
             * Integer::from(
                 self.Ce
-                    .value
                     .pow_mod_ref(&(Integer::from(-1) * &self.challenge), N)
                     .unwrap(),
             ))
